@@ -4,7 +4,8 @@
 //   initfail                 -> acquire_driver_init_v0 returns NULL
 //   <kind> <hexname|->       -> one device per line; device_id = line index (mod 256)
 //
-// Compiled with -DMOCK_NO_ENTRY it exports no entry point at all.
+// Compiled with -DMOCK_NO_ENTRY it exports no entry point at all; with -DMOCK_UNRESOLVED its entry point needs a symbol that no
+// library provides (a driver whose vendor SDK is absent).
 #define _GNU_SOURCE
 #include "device/kit/driver.h"
 #include "device/props/device.h"
@@ -90,6 +91,13 @@ acquire_driver_init_v0(void (*reporter)(int is_error,
                                         const char* msg))
 {
     (void)reporter;
+#ifdef MOCK_UNRESOLVED
+    // a driver library for hardware whose vendor SDK is not installed: this symbol is provided by nothing. A loader that binds
+    // symbols when it opens the library finds out there and skips the library; one that binds lazily finds out here, and dies.
+    extern int acq_verif_vendor_sdk_that_is_not_installed(void);
+    if (acq_verif_vendor_sdk_that_is_not_installed())
+        return 0;
+#endif
     Dl_info info = { 0 };
     if (!dladdr((void*)&acquire_driver_init_v0, &info) || !info.dli_fname)
         return 0;
